@@ -549,7 +549,9 @@ impl Prop for C10 {
                 // the aag/aig streams end before the declared number of gates: that is expected
                 if !case.kind.is_aiger() {
                     st.hit("note.stream_rejected");
-                    let _ = (msg, line, column);
+                    if std::env::var_os("VERIF_DEBUG_STREAM").is_some() {
+                        eprintln!("stream rejected: {line}:{column} {msg} -- {case:?}");
+                    }
                 }
             }
             _ => {}
